@@ -327,8 +327,10 @@ MANIFEST = {
             "schemas. The buffer specification itself (extracted) is evaluated on the implementation for luna_pinyin and cangjie5 "
             "with both editors.  Round 4: the chains of the theorem may carry ascii_composer in front of the processors and "
             "ascii_segmentor in front of the segmentors (their stock positions; C05_edit_refines_buffer_ascii is the instance with "
-            "every mode-switch style bound), and the correspondence also runs on the schemas with ascii_composer, ascii_segmentor "
-            "and the key binder.",
+            "every mode-switch style bound) and key_binder between them and the speller - the stock chain order - for any binding "
+            "table that accepts no unmodified key of the alphabet (C05_edit_refines_buffer_stock_order, "
+            "C05_edit_refines_buffer_key_binder: the 28 bindings of the synthetic schemas, decided by no_alphabet_binding_dec); the "
+            "correspondence runs on all of these schemas.",
     "note": "Closed under the global context (no axioms). Trusted: Coq kernel + vm_compute; gen/keymaps.py; the Gallina port of the "
             "engine (validated by differential testing, not proved against C++); ExtrOcamlBasic extraction and the OCaml/C++ glue. "
             "The theorem covers the engine core with the default speller options; non-interference of the stock schemas' other "
